@@ -115,6 +115,6 @@ func VerifProcessorTwoClients() {
 	_ = deq1Done
 	p.Close()
 	zzverif.Ghost(func() { log.closed = true })
-	zzverif.Assert(zzverif.ThreadsAlive() == 0, "loop_goroutine_gone_after_close")
+	zzverif.Assert(zzverif.ThreadsAliveIs(0), "loop_goroutine_gone_after_close")
 	zzverif.Cover("processor_two_clients_done")
 }
